@@ -153,6 +153,14 @@ def check_axang(ctx, ax, th, sc, q, R):
         ax2, th2 = out.value
         ctx.le("q -> axis-angle returns (axis, angle)", rotvec_err(ax2, th2, ax, th), 1e-14 * max(1.0, th), {"axis": ax2, "angle": th2}, route=r)
         ctx.le("returned axis is a unit vector", abs(np.linalg.norm(ax2) - 1), 1e-14, route=r)
+    # the antipodal representative -q (w < 0) describes the same rotation: whatever (axis, angle) is returned must too
+    for nm, fn in (("Quaternion.to_axang", lambda x: ahrs.Quaternion(x.copy()).to_axang()), ("quat2axang", lambda x: o.quat2axang(x.copy()))):
+        for sgn in (1.0, -1.0):
+            out = call(fn, sgn * q)
+            if ctx.returned(out, route="axang/Quaternion" if nm[0] == "Q" else "axang/free"):
+                ax2, th2 = out.value
+                ctx.le("(axis, angle) of +-q describes the rotation of q", np.abs(rq.rodrigues(ax2, float(th2)) - R).max(), 1e-13,
+                       {"sign": sgn, "axis": ax2, "angle": th2, "via": nm}, route="axang/Quaternion" if nm[0] == "Q" else "axang/free")
     r = "axang/free"
     out = call(lambda: o.quat2axang(o.axang2quat(ax.copy(), th)))
     if ctx.returned(out, route=r):
@@ -199,6 +207,10 @@ def check_explog_pow(ctx, ax, th, sc, a, b, q, R):
                 o2 = call(lambda: np.asarray(ahrs.Quaternion(lg.copy(), versor=False).exponential, float))
                 if ctx.returned(o2, route=r):
                     ctx.le("exp(log q) = q", np.abs(np.asarray(o2.value) - q).max(), 1e-7, route=r)
+    if th > 1e-6:   # -q (w < 0): exp must still invert log
+        o3 = call(lambda: np.asarray(ahrs.Quaternion(np.asarray(ahrs.Quaternion(-q).logarithm, float), versor=False).exponential, float))
+        if ctx.returned(o3, route=r):
+            ctx.le("exp(log(-q)) = -q", np.abs(np.asarray(o3.value) + q).max(), 1e-7, route=r)
     out = call(lambda: np.asarray(ahrs.Quaternion(np.r_[0.0, ax * th / 2], versor=False).exp, float)) if th > 0 else None
     if out is not None and ctx.returned(out, route=r):
         ctx.le("exp((0, u theta/2)) = q", np.abs(np.asarray(out.value) - q).max(), 1e-14, route=r)
